@@ -189,6 +189,86 @@ pub fn path_valid<const M: usize, const N: usize>(p: &Params, x: &[u8; M], y: &[
     assert!(score == al.score, "C01: recomputed score of the reported path differs from the reported score");
 }
 
+/// Same checks as `path_valid`, walking a fixed-size copy of the operations (padding = zero-length clips, which are ignored).
+pub fn path_valid_bounded<const M: usize, const N: usize, const LMAX: usize>(p: &Params, x: &[u8; M], y: &[u8; N], al: &Alignment, clips_kept: bool) {
+    assert!(al.xlen == M && al.ylen == N, "C01: xlen/ylen wrong");
+    assert!(al.xstart <= al.xend && al.xend <= M && al.ystart <= al.yend && al.yend <= N, "C01: coordinates out of range");
+    let clips = clip_total(p, M, N, al.xstart, al.xend, al.ystart, al.yend);
+    assert!(clips.is_some(), "C01: a disabled end was clipped");
+    let mut score = clips.unwrap();
+    let (mut i, mut j) = (al.xstart, al.ystart);
+    let mut prev: u8 = 0;
+    let (mut xpre, mut xsuf, mut ypre, mut ysuf) = (0usize, 0usize, 0usize, 0usize);
+    // at most M + N aligned operations and four clips can occur: copy them into a fixed array first, so that the walk
+    // itself runs over a constant-size buffer (walking the Vec of symbolic length directly exhausts memory from 2x2 on)
+    let nops = al.operations.len();
+    assert!(nops <= LMAX, "C01: more operations than M + N + 4");
+    let mut ops = [AlignmentOperation::Xclip(0); LMAX];
+    let mut c = 0;
+    while c < LMAX {
+        if c < nops {
+            ops[c] = al.operations[c];
+        }
+        c += 1;
+    }
+    let mut k = 0;
+    while k < LMAX {
+        match ops[k] {
+            AlignmentOperation::Match | AlignmentOperation::Subst => {
+                assert!(i < al.xend && j < al.yend, "C01: path leaves the reported sub-ranges");
+                let is_match = al.operations[k] == AlignmentOperation::Match;
+                assert!((x[i] == y[j]) == is_match, "C01: Match/Subst label contradicts the symbols");
+                score += p.f(x[i], y[j]);
+                i += 1;
+                j += 1;
+                prev = 0;
+            }
+            AlignmentOperation::Ins => {
+                assert!(i < al.xend, "C01: path leaves the reported x range");
+                score += if prev == 1 { p.gap_extend } else { p.gap_open + p.gap_extend };
+                i += 1;
+                prev = 1;
+            }
+            AlignmentOperation::Del => {
+                assert!(j < al.yend, "C01: path leaves the reported y range");
+                score += if prev == 2 { p.gap_extend } else { p.gap_open + p.gap_extend };
+                j += 1;
+                prev = 2;
+            }
+            AlignmentOperation::Xclip(l) => {
+                assert!(clips_kept, "C01: clip operation left in a filtered alignment");
+                if l == 0 {
+                    // a zero-length clip consumes nothing and costs nothing under the documented model: tolerated anywhere
+                } else if i == al.xstart && xpre == 0 && al.xstart > 0 && l == al.xstart && xsuf == 0 {
+                    // prefix clip of x: before any symbol of x is consumed (its position relative to y's operations is a
+                    // matter of representation, e.g. [Yclip(1), Ins] for "y clipped as suffix, x inserted")
+                    xpre = l;
+                } else {
+                    assert!(i == al.xend, "C01: x clip in the middle of the aligned x range");
+                    xsuf += l;
+                }
+            }
+            AlignmentOperation::Yclip(l) => {
+                assert!(clips_kept, "C01: clip operation left in a filtered alignment");
+                if l == 0 {
+                } else if j == al.ystart && ypre == 0 && al.ystart > 0 && l == al.ystart && ysuf == 0 {
+                    ypre = l;
+                } else {
+                    assert!(j == al.yend, "C01: y clip in the middle of the aligned y range");
+                    ysuf += l;
+                }
+            }
+        }
+        k += 1;
+    }
+    assert!(i == al.xend && j == al.yend, "C01: path does not consume exactly the reported sub-ranges");
+    if clips_kept {
+        assert!(xpre == al.xstart && ypre == al.ystart, "C01: prefix clip lengths do not add up to the unaligned prefix");
+        assert!(xsuf == M - al.xend && ysuf == N - al.yend, "C01: suffix clip lengths do not add up to the unaligned suffix");
+    }
+    assert!(score == al.score, "C01: recomputed score of the reported path differs from the reported score");
+}
+
 /// custom(): optimal + achievable, one call on a fresh aligner.
 #[cfg(kani)]
 pub fn custom<const M: usize, const N: usize, const L: usize, const MASK: u8>() {
@@ -401,3 +481,20 @@ inst!(c01_path_2x2_k6, 14, custom_path::<2, 2, 6>());
 inst!(c01_path_2x2_k9, 14, custom_path::<2, 2, 9>());
 inst!(c01_opt_3x3_k15, 20, custom_opt::<3, 3, 6, 15>());
 inst!(c01_path_3x3_k15, 20, custom_path::<3, 3, 15>());
+
+/// (b) only, bounded walk.
+#[cfg(kani)]
+pub fn custom_path_b<const M: usize, const N: usize, const LMAX: usize, const MASK: u8>() {
+    let p = any_params::<MASK, 4>();
+    let x: [u8; M] = kani::any();
+    let y: [u8; N] = kani::any();
+    let mut al = Aligner::with_capacity_and_scoring(M, N, scoring_of(p));
+    let a = al.custom(&x[..], &y[..]);
+    path_valid_bounded::<M, N, LMAX>(&p, &x, &y, &a, true);
+    kani::cover!(a.operations.len() >= 2, "path of at least two operations");
+    core::mem::forget(al);
+    core::mem::forget(a);
+}
+inst!(c01_pathb_2x2_k15, 14, custom_path_b::<2, 2, 8, 15>());
+inst!(c01_pathb_2x2_k0, 14, custom_path_b::<2, 2, 8, 0>());
+inst!(c01_pathb_1x1_k15, 8, custom_path_b::<1, 1, 6, 15>());
